@@ -74,7 +74,15 @@ var nearKeys = []string{"vgi_rpc.stream_state", "vgi_rpc.stream_state#b64x", "vg
 	"vgi_rpc.cancelled", "vgi_rpc.cance", "xvgi_rpc.cancel", "VGI_RPC.CANCEL", "vgi_rpc.stream_state#b64#b64"}
 var userVals = []string{"", "v", "42", "true", "ünï", "{\"json\":1}", "multi\nline", "x=y", "long-" + "yyyyyyyyyyyyyyyyyyyyyyyyyyyyyyyyyyyyyyyyyyyyyyy"}
 
-func genMeta(rng interface{ IntN(int) int }, cancel bool) turnMeta {
+// other PROTOCOL keys: on a continuation request without external storage /
+// shared memory attached they mean nothing to the framework, so they are the
+// request's own metadata like any other key (domain audit: keys that look
+// like framework keys). Not generated on the external-storage cluster, where a
+// zero-row batch carrying vgi_rpc.location IS a pointer batch by protocol.
+var protoKeys = []string{"vgi_rpc.location", "vgi_rpc.location.sha256", "vgi_rpc.log_level", "vgi_rpc.log_message", "vgi_rpc.log_extra",
+	"vgi_rpc.shm_offset", "vgi_rpc.shm_length", "vgi_rpc.error_kind", "vgi_rpc.server_id", "vgi_rpc.protocol_version", "vgi_rpc.request_version"}
+
+func genMeta(rng interface{ IntN(int) int }, cancel, proto bool) turnMeta {
 	var m turnMeta
 	n := rng.IntN(9) // 0..8
 	if rng.IntN(4) == 0 {
@@ -112,6 +120,12 @@ func genMeta(rng interface{ IntN(int) int }, cancel bool) turnMeta {
 				continue
 			}
 			fallthrough
+		case 6:
+			if proto {
+				kv = [2]string{protoKeys[rng.IntN(len(protoKeys))], []string{"", "INFO", "EXCEPTION", "https://mem.invalid/x", "0", "42", "true"}[rng.IntN(7)]}
+				break
+			}
+			fallthrough
 		default:
 			kv = [2]string{userKeys[rng.IntN(len(userKeys))], userVals[rng.IntN(len(userVals))]}
 		}
@@ -136,7 +150,7 @@ func genCase(r *mon.Run, i int) caseT {
 	c.Shape = shapes[(i/len(methods))%len(shapes)]
 	round := i / (len(methods) * len(shapes))
 	c.Instances = 1 + rng.IntN(2)
-	c.Cache = []int{0, -1}[rng.IntN(2)]
+	c.Cache = []int{0, -1, 0, -1, 1}[rng.IntN(5)] // 1: every other call evicts this one's entry
 	turns := 1 + rng.IntN(7)
 	o := svc.StreamOpt{Producer: c.Producer, Turns: turns, FailAt: -1}
 	nIn := turns + 1 + rng.IntN(2)
@@ -179,14 +193,10 @@ func genCase(r *mon.Run, i int) caseT {
 		c.Variant = "exact"
 	}
 	c.Script = svc.GenStream(rng, fmt.Sprintf("c16-%d", i), o)
-	if c.Method == "k_d" && !c.Producer && c.Variant != "exact" {
-		// a dynamic method's declared input schema is C11's subject; keep C16 on what every route casts
-		c.Variant = "exact"
-	}
 	c.Args = svc.GenArgs(rng)
 	c.Inputs = svc.GenInputs(rng, nIn)
 	for k := 0; k < nIn; k++ {
-		c.Meta = append(c.Meta, genMeta(rng, k == c.CancelAt))
+		c.Meta = append(c.Meta, genMeta(rng, k == c.CancelAt, c.ExtInput < 0))
 	}
 	return c
 }
@@ -581,6 +591,11 @@ func classifyMeta(r *mon.Run, sent [][2]string) {
 			if kv[1] == "" {
 				r.Class("meta.empty-value")
 			}
+			for _, pk := range protoKeys {
+				if kv[0] == pk {
+					r.Class("meta.protocol-key-as-user-key")
+				}
+			}
 			if strings.HasPrefix(strings.ToLower(kv[0]), "vgi_rpc.stream_state") || strings.HasPrefix(kv[0], "vgi_rpc.call_state") || strings.HasPrefix(kv[0], "vgi_rpc.cance") {
 				r.Class("meta.near-framework-key")
 			}
@@ -637,7 +652,7 @@ func main() {
 		"turn.accepted", "turn.failed", "cancel.response", "cancel.turn0", "cancel.turn1", "cancel.turn>=2", "cancel.hook-once", "cancel.no-hook",
 		"cursor.fresh-checked", "cancel.value-empty", "cancel.value-other", "handler.scanned."+wk.EvProbeExchange, "handler.scanned."+wk.EvProbeProduce, "handler.scanned."+wk.EvProbeCancel,
 		"handler.user-metadata-checked", "handler.ext-input", "meta.duplicate-user-key", "meta.duplicate-framework-key", "meta.near-framework-key", "meta.empty-value",
-		"meta.0-user-keys", "meta.1-4-user-keys", "meta.>=5-user-keys", "instances.1", "instances.2", "cache.0", "cache.-1",
+		"meta.0-user-keys", "meta.1-4-user-keys", "meta.>=5-user-keys", "instances.1", "instances.2", "cache.0", "cache.-1", "cache.1", "meta.protocol-key-as-user-key",
 		"shape.fail-error", "shape.fail-panic", "shape.fail-none", "shape.fail-emit2", "shape.finish-variant", "shape.castable", "shape.ext-input")
 	slog.SetDefault(slog.New(slog.NewTextHandler(io.Discard, nil)))
 	log := mon.NewLog()
